@@ -60,6 +60,10 @@ KNOWN_NOINFO = {"dot", "matmul", "rolling.sum", "expanding.sum", "ewm.mean", "gr
 
 _CURRENT = None      # the World receiving recorded __finalize__ calls
 
+# operation -> method names pandas 3.0.6 passes to TableDataFrame.__finalize__ (union over the data paths seen in
+# thorough runs of seeds 0-3); a difference is reported in the evidence notes, it is not an alarm
+FINALIZE_TABLE = {}
+
 
 def tok(label):
     import datetime
@@ -477,6 +481,11 @@ def _ops():
         vals.reverse()
         return [d], lambda: d.assign(**{c: vals})
 
+    @op("assign_timedelta", True)
+    def _(rng, d, mk):
+        vals = pd.to_timedelta([rng.choice([1, 2, 3]) for _ in range(len(d))], unit="s")
+        return [d], lambda: d.assign(td=vals)
+
     @op("drop_cols", True)
     def _(rng, d, mk):
         c = rng.choice(list(d.columns))
@@ -675,7 +684,7 @@ def _ops():
 
 
 MUTS = ["set_unit", "set_name", "add_dest", "add_column_new", "add_column_existing", "set_disp_unit", "set_fmt",
-        "rewrap_name", "rewrap_units", "rewrap_dests"]
+        "rewrap_name", "rewrap_units", "rewrap_dests", "rewrap_none"]
 SIDES = ["source", "result"]
 N_MUT = len(MUTS) * len(SIDES)
 
@@ -730,6 +739,7 @@ class CaseResult:
         self.counts = []
         self.world = None
         self.nontrivial = False
+        self.op_methods = []   # (operation, methods pandas passed to __finalize__)
 
     def fail(self, what, observed, expected=None, key=None):
         self.failures.append((what, observed, expected, key or what))
@@ -749,6 +759,13 @@ def apply_mutation(res, world, rng, frames, target, mut):
             return False, new
         cand = [l for l in target.columns if l in cm and target[l].dtype.kind in "iufM" and cm[l].unit not in SPECIAL]
         if not cand:
+            try:
+                Table(target)["no_such_column"].unit = "km"
+                got = "ok"
+            except Exception as e:  # noqa: BLE001
+                got = {"exc": type(e).__name__}
+            world.push({"k": "mutate", "info": r, "mut": {"m": "set_unit", "col": tok("no_such_column"), "unit": "km"}}, got)
+            res.counts.append("mut-missing-column:" + (got if isinstance(got, str) else got["exc"]))
             return False, new
         l = rng.choice(cand)
         u = rng.choice([x for x in ["km", "zz", "mm2"] if x != cm[l].unit])
@@ -805,6 +822,14 @@ def apply_mutation(res, world, rng, frames, target, mut):
             f.specifier = sp
         world.push({"k": "mutate", "info": r, "mut": {"m": "set_fmt", "col": tok(l), "spec": sp}}, "ok")
         return f is not None, new
+    if mut == "rewrap_none":
+        t2 = Table(target)                  # no overriding field: a facade on the very same frame
+        if t2.df is not target:
+            res.fail("Table(df) without overrides copied the frame", None, None, key="rewrap_none_copies")
+        world.push({"k": "rewrap", "info": r, "frame": frame_json(target),
+                    "kw": {"name": None, "dests": None, "units": None, "transposed": None}},
+                   {"info": r, "obs": world.raw_obs(info), "shared": ["same"]})
+        return False, new
     # re-wraps
     if world.consult(target):
         return False, new
@@ -1139,6 +1164,7 @@ def run_case(seed, stream, index, ops):
             ws_outer = [w for w in ws if "pdTable" in str(w.message) or "table metadata" in str(w.message)]
             calls = world.calls[ncalls:]
             res.counts.append("finalize_calls:%d" % min(len(calls), 9))
+            res.op_methods.append((name, [str(c["method"]) for c in calls]))
             for c in calls:
                 res.counts.append("method:%s" % c["method"])
             res.nontrivial = res.nontrivial or bool(calls)
@@ -1214,6 +1240,7 @@ def run(tier, seed, model_ok, translator, search=False):
     undo = install()
     pend, mops = [], []
     per_key = {}
+    seen_methods = {}
     try:
         for stream, n in (("pairs", n_pairs), ("chains", n_chains)):
             for index in range(n):
@@ -1224,6 +1251,8 @@ def run(tier, seed, model_ok, translator, search=False):
                 out.case(sig, nontrivial=res.nontrivial)
                 for c in res.counts:
                     out.count(c)
+                for opname, methods in res.op_methods:
+                    seen_methods.setdefault(opname, set()).update(methods)
                 if res.world.dead:
                     out.count("mirror-stopped:" + res.world.dead[:40])
                 for what, obs, exp, key in res.failures:
@@ -1237,6 +1266,15 @@ def run(tier, seed, model_ok, translator, search=False):
     finally:
         undo()
     out.exhaustive = False
+    # which methods pandas passes per operation: compared with the committed table, reported, never an alarm
+    drift = {k: sorted(v - set(FINALIZE_TABLE.get(k, []))) for k, v in seen_methods.items()
+             if v - set(FINALIZE_TABLE.get(k, []))}
+    if drift:
+        out.notes.append("pandas __finalize__ methods not in the committed table (pandas changed, or a data path "
+                         "not seen when the table was recorded): " + str(drift))
+    else:
+        out.notes.append("pandas __finalize__ methods per operation: all within the committed table "
+                         "(recorded with pandas 3.0.6)")
     if model_ok and not search:
         answers = common.run_model(mops)
         for (case, expect), ans in zip(pend, answers):
